@@ -123,6 +123,15 @@ def cases(ctx):
         for k in (0x8101, 0x8102, 0x8103, 0x18002, 0x18003):
             add("width-oscillation", f"*=0x008000\n{mn} {k:#x} - zz_free\nzz_free:\n")
             add("width-oscillation", f"*=0x008000\nzz_top:\n{mn} {k:#x} - zz_free\n{mn} zz_free - zz_top + 0xfd\nzz_free:\n.dl zz_free\n")
+    # .text strings with brackets that open nothing the table knows, closed or not; escapes cut short
+    tbl = {"tbl_text": "41=A\n42=B\n5B5D=[]\n43=[ok]\n"}
+    for text in ("press [a", "[", "[[", "[0x", "[0x4", "[0x41", "a[b]c", "[delai]start", "[ok", "A[", "[]", "][", "[0xZZ]", "[0x100]"):
+        add("text-brackets", f"*=0x008000\n.table 'n.tbl'\n.text '{text}'\nend:\n.dl end\n", {"n.tbl": tbl})
+    # patch files that end early (no EOF marker: just the magic, cut at a record boundary, inside a record header, inside a
+    # payload, inside a run-length descriptor)
+    whole = b"PATCH" + (0x10).to_bytes(3, "big") + (3).to_bytes(2, "big") + b"\x01\x02\x03" + (0x20).to_bytes(3, "big") + (0).to_bytes(2, "big") + (4).to_bytes(2, "big") + b"\x09" + b"EOF"
+    for cut in (5, 6, 8, 10, 11, 13, 16, 18, 20, 21, len(whole) - 2, len(whole) - 1, 0, 3):
+        add("patch-cut", "*=0x008000\nnop\n.include_ips 'cut.ips', 0\nrts\n", {"cut.ips": list(whole[:cut])})
     # a block argument that pastes itself: the inner macro's parameter has the same name as the outer one's, so inside the
     # inner scope `code` is bound to the block { {{code}} } which looks itself up (no macro is applied on the cycle)
     add("recursion", "*=0x008000\n.macro zz_tw(code) {\n{{code}}\n{{code}}\n}\n.macro zz_pt(code) {\nzz_tw({\n{{code}}\n})\n}\nzz_pt({\nnop\n})\n")
